@@ -55,7 +55,7 @@ WORLD = None  # the active World (one per process at a time)
 
 
 class TS:
-    __slots__ = ("name", "thread", "sem", "state", "pred", "deadline", "label", "exc", "ok", "index", "kind")
+    __slots__ = ("name", "thread", "sem", "state", "pred", "deadline", "label", "exc", "ok", "index", "kind", "where")
 
     def __init__(self, name, thread, index):
         self.name, self.thread, self.index = name, thread, index
@@ -67,6 +67,7 @@ class TS:
         self.exc = None
         self.ok = None
         self.kind = type(thread).__name__
+        self.where = None  # innermost pynetdicom function of the last virtual sleep (names a polling loop in a livelock report)
 
 
 # --------------------------------------------------------------------------------------------- choosers
@@ -140,8 +141,17 @@ class VTime:
     @staticmethod
     def sleep(d):
         w = WORLD
-        if w is None or w.me() is None:
+        ts = w.me() if w is not None else None
+        if ts is None:
             return
+        f = sys._getframe(1)
+        ts.where = None
+        while f is not None:
+            fn = f.f_code.co_filename.replace("\\", "/")
+            if "/pynetdicom/" in fn:
+                ts.where = f"{fn.rsplit('/', 1)[-1][:-3]}.{f.f_code.co_name}"
+                break
+            f = f.f_back
         w.yield_("sleep", pred=_never, timeout=max(d, w.quantum))
 
     @staticmethod
@@ -626,7 +636,7 @@ class World:
             st = ts.state
             if st == "blocked":
                 st = "blocked-deadline" if ts.deadline is not None else "blocked-forever"
-            threads.append({"name": ts.name, "kind": ts.kind, "state": st, "label": ts.label, "exc": ts.exc[:2] + (ts.exc[3],) if ts.exc else None})
+            threads.append({"name": ts.name, "kind": ts.kind, "state": st, "label": ts.label, "where": ts.where, "exc": ts.exc[:2] + (ts.exc[3],) if ts.exc else None})
         return {"threads": threads, "steps": self.steps, "now": round(self.now - 1000.0, 4), "budget": self.budget_exhausted}
 
     def exceptions(self):
@@ -670,6 +680,8 @@ class RawPeer:
     ["send", bytes] | ["send_chunks", bytes, [cuts]] | ["recv_pdu", timeout] | ["sleep", seconds] | ["close"] |
     ["shutdown_wr"] | ["wait_close", timeout] | ["recv_until_close", timeout]
     Received PDUs are appended to self.received as raw bytes; b"" marks EOF; None marks a timeout."""
+
+    EXT = {}
 
     def __init__(self, world, script, port=None, sock=None, start=0):
         self.w, self.script, self.port, self.sock, self.start = world, [list(s) for s in script], port, sock, start
@@ -750,6 +762,8 @@ class RawPeer:
                         st = self.recv_pdu(op[1])
                         if st != "ok":
                             break
+                elif k in self.EXT:  # ops registered by a scenario engine: fn(peer, op)
+                    self.EXT[k](self, op)
                 else:
                     raise ValueError(k)
         except Abort:
